@@ -109,6 +109,13 @@ static int set_default_attrs(struct xcm_socket *s, struct xcm_socket *parent_s,
 	    return -1;
     }
 
+    /* an accepted connection inherits the server socket's mode, unless
+       the application says otherwise */
+    if (parent_s != NULL &&
+	(attrs == NULL || !xcm_attr_map_exists(attrs, XCM_ATTR_XCM_BLOCKING)) &&
+	xcm_attr_set_bool(s, XCM_ATTR_XCM_BLOCKING, parent_s->is_blocking) < 0)
+	return -1;
+
     return 0;
 }
 
@@ -293,8 +300,11 @@ struct xcm_socket *xcm_accept_a(struct xcm_socket *server_s,
     struct xcm_socket *conn_s;
 
 restart:
-    conn_s = socket_create(server_s->proto, xcm_socket_type_conn,
-			   server_s->is_blocking);
+    /* like in xcm_connect_a(), the socket starts out in blocking mode,
+       so that a xcm.blocking attribute never finds a non-blocking
+       socket with "outstanding work" to finish - there is no
+       connection yet (see set_default_attrs() for the inheritance) */
+    conn_s = socket_create(server_s->proto, xcm_socket_type_conn, true);
     if (conn_s == NULL)
 	goto err;
 
